@@ -242,8 +242,11 @@ impl<T: Config> SpectatorSession<T> {
                 self.state = SessionState::Running;
                 self.event_queue.push_back(GgrsEvent::Synchronized { addr });
             }
-            // disconnect the player, then forward to user
+            // disconnect the host endpoint, then forward to user
             Event::Disconnected => {
+                // like a P2P session, stop the endpoint: otherwise it keeps running its timers and
+                // reports NetworkResumed/NetworkInterrupted for a host already declared disconnected
+                self.host.disconnect();
                 self.event_queue.push_back(GgrsEvent::Disconnected { addr });
             }
             // add the input and all associated information
